@@ -156,6 +156,37 @@ def units(tier):
         ctx.prove("parent-keeps-nothing", len(q_items(parent)) == 0)
     unit("serial/distributor-queue-registration", r_dist_hash)
 
+
+    # ------------------------------------------------------------ every report about bus traffic reaches the watcher
+    def r_feed(ctx, interp, fn):
+        """_handle_read: a report in observe mode or in response mode - whatever its sequence number, outstanding or
+        long retired (the gateway reports foreign frames equal to its last transmission in response mode) - is handed
+        to the bus watcher exactly once and the watcher is woken; handshake (info mode) reports are not traffic"""
+        from specs import gateways as GW
+        from pyvc.models import AssocDict
+        world = World(ctx, interp)
+        install(interp, world)
+        s1, s = ctx.int("seq1", 1, 255), ctx.int("report_seq", 0, 255)
+        e1 = world.event(False, "e1")
+        m1 = ctx.track([])
+        outstanding = {s1: (e1, m1)} if ctx.native else AssocDict([(s1, (e1, m1))])
+        mode = ctx.int("mode", 0, 255)
+        body = [mode] + [ctx.int("r%d" % i, 0, 255) for i in range(1, 8)] + [s] + [0] * 55
+        data = bytes(body) if ctx.native else SBytes(body)
+        watch = world.event(False, "watch")
+        feed = ctx.track([])
+        drv = ctx.new(HID.tridonic, _log=logging.getLogger("x"), _outstanding=outstanding, _bus_watch_data=feed,
+                      _bus_watch_data_available=watch, firmware_version="1.0", serial="00", _f=7)
+        out = world.run(HID.tridonic._handle_read, drv, data)
+        ctx.cover()
+        ctx.prove("never-raises", out[0] == "return", detail="outcome %r" % (out[:2],))
+        traffic = Or(mode == GW.TRIDONIC_MODE_OBSERVE, mode == GW.TRIDONIC_MODE_RESPONSE)
+        got = interp.get_attr(drv, "_bus_watch_data")
+        ctx.prove("traffic-report-handed-to-the-watcher-exactly-once", (len(got) == 1) == traffic if not isinstance(traffic, bool)
+                  else (len(got) == 1) == traffic, detail="mode %r, sequence number %r" % (mode, s))
+        ctx.prove("watcher-woken-exactly-for-traffic", watch.flag == traffic)
+    unit("hid/_handle_read/traffic-reaches-the-watcher", r_feed)
+
     # ------------------------------------------------------------ hid callback registry
     def r_callbacks(ctx, interp, fn):
         world = World(ctx, interp)
